@@ -11,7 +11,7 @@ crate=pie; testdir=pie/tests
 if grep -q "pie_graph" "$demo" 2>/dev/null && ! grep -q "use pie::" "$demo"; then crate=pie_graph; testdir=graph/tests; fi
 mkdir -p $testdir
 feat=""
-if grep -q "file_hash_checker\|HashChecker" "$demo" "$sd/README.md" 2>/dev/null; then feat="--features file_hash_checker"; fi
+if [ "$crate" = pie ] && grep -q "HashChecker\|hash_checker" "$demo" 2>/dev/null; then feat="--features file_hash_checker"; fi
 run_demo() { cp "$demo" $testdir/seed_demo.rs; cargo test --offline -p $crate $feat --test seed_demo 2>&1 | grep -E "^test result|error(\[|:)" | head -3; rm -f $testdir/seed_demo.rs; }
 echo "== without patch: demo"; r0=$(run_demo); echo "$r0"
 git apply "$sd/patch.diff" || { echo "PATCH DOES NOT APPLY"; exit 2; }
